@@ -220,10 +220,10 @@ pub fn judge_texts(fault_text: &str, twin_text: &str) -> Judged {
     let fault_outcome;
     match &fo {
         Outcome::Ok(_) => {
+            // an accepted fault is a violation whatever happens to the control (a rejected control only makes a
+            // *rejection* of the fault uninformative)
             fault_outcome = "accepted".to_string();
-            if control_ok {
-                fail = Some(("accepted-fault".to_string(), format!("the compiler accepted:\n{}", fault_text)));
-            }
+            fail = Some(("accepted-fault".to_string(), format!("the compiler accepted{}:\n{}", if control_ok { "" } else { " (and rejected the permitted twin)" }, fault_text)));
         }
         Outcome::Panic { msg, .. } => {
             fault_outcome = "panic".to_string();
@@ -283,7 +283,7 @@ pub fn run_faults(run: &mut Run, snips: &[Snip], prelude: fn() -> Vec<Top>, dept
         let j = judge_texts(&ft, &tt);
         acc.evaluations += 2;
         let sn = &snips[c.snip];
-        if !j.control_ok {
+        if !j.control_ok && j.fail.is_none() {
             acc.count("control_rejected(case not counted)", 1);
             acc.count(&format!("control_rejected@{}/{:?}/{}", path_name(&c.path), c.placement, c.ectx.map(|e| EXPR_CTXS[e].name).unwrap_or("-")), 1);
             if acc.samples.len() < 3 {
